@@ -7,6 +7,10 @@
 package findings
 
 import (
+	"regexp"
+	"strconv"
+	"strings"
+
 	"verif/internal/harness"
 )
 
@@ -38,4 +42,42 @@ func Suppressor(prop string) harness.Suppressor {
 		}
 		return "", false
 	}
+}
+
+// ---------------------------------------------------------------------------
+// signatures
+
+func init() {
+	sigs = append(sigs, sig{id: "atx-backslash-space", prop: "C15", match: atxBackslashSpace})
+}
+
+var atxContentRE = regexp.MustCompile(`^ATX heading ("(?:[^"\\]|\\.)*"): recognizer says content ("(?:[^"\\]|\\.)*"), the spec's definition ("(?:[^"\\]|\\.)*")$`)
+
+// atxBackslashSpace matches KF-01: the ATX recognizer keeps one space or tab
+// after a content that ends in an odd number of backslashes (it treats
+// backslash-space as an escaped space; the repository's own table test pins
+// "# foo \  #" to that reading). Only this exact difference is matched: same
+// level, and recognizer content == spec content + one space/tab, where the spec
+// content ends with an odd run of backslashes.
+func atxBackslashSpace(check string, c harness.Case, msg string) bool {
+	if i := strings.IndexByte(msg, '\n'); i >= 0 {
+		msg = msg[:i]
+	}
+	m := atxContentRE.FindStringSubmatch(msg)
+	if m == nil {
+		return false
+	}
+	got, err1 := strconv.Unquote(m[2])
+	want, err2 := strconv.Unquote(m[3])
+	if err1 != nil || err2 != nil {
+		return false
+	}
+	if len(got) != len(want)+1 || got[:len(want)] != want || (got[len(want)] != ' ' && got[len(want)] != '\t') {
+		return false
+	}
+	n := 0
+	for n < len(want) && want[len(want)-1-n] == '\\' {
+		n++
+	}
+	return n%2 == 1
 }
